@@ -594,6 +594,49 @@ def param_api_cases(rng, cases):
                     cases.append(("cs 1 %d %d %d" % (cs, incomp, lossless), "cs", {"nscans": None}))
 
 
+def gen_ref(rng, cases):
+    """AC refinement scans whose pending correction bits approach MAX_CORR_BITS (flush threshold 937 + 63 = 1000)"""
+    fam = rng.choice(["boundary", "boundary", "full", "random", "withnew"])
+    if fam == "boundary":       # 14 full blocks = 882, then a block that lands on 930..937, then full blocks
+        counts = [63] * 14 + [rng.range(48, 55)] + [63] * rng.range(1, 4) + [rng.range(0, 63) for _ in range(rng.range(0, 6))]
+    elif fam == "full":
+        counts = [63] * rng.range(16, 40)
+    elif fam == "random":
+        counts = [rng.range(40, 63) for _ in range(rng.range(17, 48))]
+    else:
+        counts = [rng.choice([63, 63, 62, 160, 130]) for _ in range(rng.range(17, 40))]
+    nbx = rng.choice([1, 2, 3, len(counts)])
+    nby = (len(counts) + nbx - 1) // nbx
+    cases.append(("ref %d %d %d | %s" % (nbx, nby, rng.below(2), " ".join(map(str, counts))), "ref", {"nscans": 3}))
+
+
+def gen_highal(rng, cases):
+    """12-bit (and 8-bit) application scripts with Ah/Al at and beyond the validator's limits (13 / 10): an accepted
+    script must give a file the library's own decoder reads back"""
+    prec = 12 if rng.chance(3, 4) else 8
+    al = rng.range(9, 15)
+    nc = rng.choice([1, 1, 3])
+    comps = list(range(nc))
+    which = rng.choice(["dc", "dc", "ac", "both"])
+    sc = []
+    dcal = al if which in ("dc", "both") else rng.range(0, 2)
+    sc.append((comps, 0, 0, 0, dcal))
+    acal = al if which in ("ac", "both") else rng.range(0, 2)
+    for c in comps:
+        sc.append(([c], 1, 63, 0, acal))
+    for a in range(dcal, 0, -1):
+        sc.append((comps, 0, 0, a, a - 1))
+    for c in comps:
+        for a in range(acal, 0, -1):
+            sc.append(([c], 1, 63, a, a - 1))
+    if len(sc) > 60:
+        sc = sc[:60]
+    script = [scan_s(*x) for x in sc]
+    line = setup_line(rng.choice([8, 17, 33]), rng.choice([8, 9, 16]), nc, nc, prec, 0, 0, rng.below(2) if rng.chance(1, 4) else 0, 0, 0, 0, 0,
+                      [(1, 1)] * 10, script)
+    cases.append((line, "setup-highal", {"nscans": len(script)}))
+
+
 def api_cases(cases):
     """jpeg_write_tables + abbreviated image (all coder combinations); jpeg_write_marker in every API state"""
     for nc in (1, 3):
@@ -742,6 +785,8 @@ def oracle_verdict(kind, meta, line):
         return "stream does not end with EOI"
     if f.get("warn") != "0":
         return "own decompressor reports %s warning(s)" % f.get("warn")
+    if f.get("guard", "0") != "0":
+        return "an internal buffer was overrun (guard zone behind an alloc_small block overwritten)"
     if kind == "wm" and " m=0" in mpart:
         return "the marker written by jpeg_write_marker is not in the stream between the file header and the frame header"
     if "same" in f and f["same"] != "1":
@@ -770,6 +815,10 @@ def sig_of(tag, kind, bad):
         return "restart-multiscan:" + bad[:30]
     if kind in ("raw", "corpus-raw"):
         return "raw-data-rows:" + bad[:30]
+    if kind in ("ref", "corpus-ref"):
+        return "corr-bit-buffer:" + bad[:30]
+    if kind == "setup-highal":
+        return "script-ahal-limit:" + bad[:30]
     if kind in ("ll", "corpus-ll"):
         return "lossless-bad-output:" + bad[:40]
     return "bad-output:%s:%s" % (tag or kind, bad[:40])
@@ -846,6 +895,10 @@ def run(ctx):
         gen_raw(rng, cases)
     for _ in range(ctx.n(300, 8000)):
         gen_hdr(rng, cases)
+    for _ in range(ctx.n(80, 2000)):
+        gen_ref(rng, cases)
+    for _ in range(ctx.n(80, 2000)):
+        gen_highal(rng, cases)
     tn_cases(cases)
     api_cases(cases)
     param_api_cases(rng, cases)
